@@ -195,6 +195,11 @@ def check(ctx):
     pre_removal(ctx)
     order_flow(ctx)
     fast_counting(ctx)
+    # linked continuous design variables are set from the relative position that correct_value returns: it must be
+    # the position of the corrected value (inside [0, 1]); same region analysis as C16
+    from . import c16 as _c16
+    _c16.clamp_regions(ctx)
+    ctx.floor('A16', 40, 'regions of correct_value (fraction handed to linked variables)')
     ctx.floor('A14', 12, 'relation instances')
     ctx.floor('A7', 6, 'dispatch chains')
 
